@@ -249,7 +249,7 @@ fn d17_object(h: &HitObject) -> bool {
     })
 }
 
-/// D19: the input sets the mode after records that depend on it were read
+/// D21: the input sets the mode after records that depend on it were read
 /// (a `Mode` record of [General] after a [TimingPoints] / [HitObjects] record)
 pub fn mode_after_use(text: &str) -> bool {
     let mut sec = "";
@@ -393,7 +393,7 @@ pub fn oracle(text: &str, origin: &str, out: &mut Out) {
         out.fail("", &desc, &format!("kiai timeline differs at t={}: {} vs {}", t, kiai_at(&m1, t), kiai_at(&m2, t)));
     }
     if let Some(t) = scroll_bad {
-        out.fail(if d19 { "D19" } else if d12 { "D12" } else { "" }, &desc, &format!("scroll-speed timeline differs at t={}: {} vs {}", t, scroll_at(&m1, t), scroll_at(&m2, t)));
+        out.fail(if d19 { "D21" } else if d12 { "D12" } else { "" }, &desc, &format!("scroll-speed timeline differs at t={}: {} vs {}", t, scroll_at(&m1, t), scroll_at(&m2, t)));
     }
     // hit objects.  An object whose encoded line is rejected on re-read is lost (C04's
     // business; known for the D2 class): it is reported and left out of the expectation.
@@ -435,7 +435,7 @@ pub fn oracle(text: &str, origin: &str, out: &mut Out) {
                 }
                 // a lost object earlier in the list can move a forced new-combo flag
                 let cls = if d19 && matches!(*n, "curve_path" | "curve_lengths" | "velocity") {
-                    "D19"
+                    "D21"
                 } else if path_item && d13 {
                     "D13"
                 } else if path_item && d17 {
